@@ -186,6 +186,17 @@ fn execute(ctx: &Ctx, c: &Cfg) -> Run {
     }
     ("announce", true) => vec!["torrent", "announce", "--input", "t.torrent"].into_iter().map(String::from).collect(),
     ("piece-length", _) => vec!["torrent", "piece-length"].into_iter().map(String::from).collect(),
+    ("completions-dir", false) => {
+      // scripts written to a directory: success, and nothing on standard output
+      sb.mkdir("scripts");
+      reference = Some(vec![]);
+      vec!["completions", "--dir", "scripts"].into_iter().map(String::from).collect()
+    }
+    ("completions-dir", true) => {
+      // one of the five cannot be written (a directory sits where it goes): a reported failure
+      sb.mkdir("scripts/imdl.fish");
+      vec!["completions", "--dir", "scripts"].into_iter().map(String::from).collect()
+    }
     ("completions", false) => vec!["completions", "--shell", "bash"].into_iter().map(String::from).collect(),
     ("completions", true) => vec!["completions"].into_iter().map(String::from).collect(),
     ("help", _) => vec!["--help".to_string()],
@@ -244,7 +255,7 @@ pub fn run(ctx: &Ctx) -> Report {
   report.rule.push_str("; plus: --open with a talkative launcher first in PATH, announce with no peers and with two trackers sharing a peer, non-UTF-8 option values, help and version forms, lint refusals, standard output closed early or on a full device, standard error on a pseudo-terminal with and without --quiet for eight commands");
   report.correspondences.push("C18.streams: stderr activity / stdout styling of the real binary = Imdlv.Streams.{outStream,errStream}; exit status = exitCode".into());
   let mut cfgs = Vec::new();
-  for scenario in ["create-stdout", "create-file", "create-open", "link", "link-open", "show-json", "show", "verify", "announce", "announce-no-peers", "announce-two-trackers", "piece-length", "completions", "usage", "usage-no-subcommand", "usage-torrent-alone", "usage-missing-value", "usage-bad-value", "usage-non-utf8-value", "version", "version-short", "help", "help-subcommand", "create-lint-rejected"] {
+  for scenario in ["create-stdout", "create-file", "create-open", "link", "link-open", "show-json", "show", "verify", "announce", "announce-no-peers", "announce-two-trackers", "piece-length", "completions", "completions-dir", "usage", "usage-no-subcommand", "usage-torrent-alone", "usage-missing-value", "usage-bad-value", "usage-non-utf8-value", "version", "version-short", "help", "help-subcommand", "create-lint-rejected"] {
     for fail in [false, true] {
       if fail && (matches!(scenario, "piece-length" | "version" | "version-short" | "help" | "help-subcommand") || scenario.starts_with("usage")) {
         continue;
